@@ -540,6 +540,9 @@ def rule_assign_constraints(chk, prog, tier):
               'okstruct:ptr-to-const': rec('TYPESTRUCT', member(cint, 0, member(u['int'], 0)))}
         for nm, t_ in CS.items():
             ops.append((nm, w.temp(t_, nm), {'k': nm}))
+        # nullptr_t (C23): the constant nullptr and an object of that type convert to every pointer type and to bool
+        ops.append(('nullptr', w.mkexpr('EXPRCONST', w.t('nullptr'), None, u__constant__u=0), {'k': 'nullptr'}))
+        ops.append(('nullptr_t-object', w.temp(w.t('nullptr'), 'np'), {'k': 'nullptr'}))
         cur = {}; seq = {'i': 0}
         tokobj = it.gobj('tok')
         def settok(k):
@@ -572,16 +575,17 @@ def rule_assign_constraints(chk, prog, tier):
     for (ln, rn), got in out.items():
         L, R = descs[ln], descs[rn]
         la, ra = L['k'] == 'arith', R['k'] == 'arith'
-        if la and L['t'] == 'bool': ok = ra or R['k'] == 'ptr'
+        if la and L['t'] == 'bool': ok = ra or R['k'] in ('ptr', 'nullptr')
         elif la: ok = ra
         elif L['k'] == 'ptr':
-            if R.get('null'): ok = True
+            if R.get('null') or R['k'] == 'nullptr': ok = True
             elif R['k'] != 'ptr': ok = False
             else:
                 lp, rp = PT[L['pointee']], PT[R['pointee']]
                 if 'func' in (lp[0], rp[0]) and lp[0] != rp[0]:
                     continue      # function pointer <-> void *: constraint violation tolerated as a common extension, not judged
                 ok = (lp[0] == rp[0] or 'void' in (lp[0], rp[0])) and (rp[1] & ~lp[1]) == 0
+        elif L['k'] == 'nullptr': ok = R['k'] == 'nullptr' or bool(R.get('null'))
         elif L['k'] in ('struct', 'struct2'): ok = R['k'] == L['k']
         elif L['k'] == 'incomplete': ok = False           # not a modifiable lvalue (6.3.2.1p1)
         elif L['k'].startswith(('cstruct:', 'okstruct:')):
